@@ -171,9 +171,17 @@ func ipv4Range(x, lo, hi uint32) {
 	cs := map[string]any{"ip": dotted(x), "start": dotted(lo), "end": dotted(hi)}
 	var got, got2 bool
 	p, pv, st := mon.Guard(func() {
-		got = lib4(x, 0).IsInRange(lib4(lo, 32), lib4(hi, 8))
-		rg := &ip.IPv4Range{Start: lib4(lo, 24), End: lib4(hi, 24)}
-		got2 = rg.Contains(lib4(x, 24))
+		// the prefix lengths carried by the three addresses have no part in a range test: they
+		// vary independently of one another from case to case
+		h := int(x*2654435761 + lo*40503 + hi)
+		if h < 0 {
+			h = -h
+		}
+		mb := [][3]int{{0, 32, 8}, {24, 24, 24}, {24, 32, 32}, {32, 24, 8}, {8, 16, 32}, {24, 8, 0}, {h % 33, (h / 33) % 33, (h / 1089) % 33}}
+		m1, m2 := mb[h%len(mb)], mb[(h/7)%len(mb)]
+		got = lib4(x, m1[0]).IsInRange(lib4(lo, m1[1]), lib4(hi, m1[2]))
+		rg := &ip.IPv4Range{Start: lib4(lo, m2[1]), End: lib4(hi, m2[2])}
+		got2 = rg.Contains(lib4(x, m2[0]))
 	})
 	r.Eval(2)
 	if p {
@@ -187,6 +195,14 @@ func ipv4Range(x, lo, hi uint32) {
 		r.Violation("ip.IPv4Range.Contains:value", fmt.Sprintf("[%s, %s].Contains(%s) = %v want %v", dotted(lo), dotted(hi), dotted(x), got2, want), cs)
 	}
 	r.Nontrivial(fmt.Sprintf("v4rng|%d|%d|%d", x, lo, hi))
+}
+
+func bitsLen(v uint32) int {
+	n := 0
+	for ; v != 0; v >>= 1 {
+		n++
+	}
+	return n
 }
 
 func ipv4Workload() {
@@ -244,6 +260,41 @@ func ipv4Workload() {
 		for _, hi := range fixed {
 			for _, x := range []uint32{lo, hi, lo - 1, lo + 1, hi - 1, hi + 1, 0, 0xFFFFFFFF, lo/2 + hi/2} {
 				ipv4Range(x, lo, hi)
+			}
+		}
+	}
+	// a range that starts on a network address and ends inside that network, its end points
+	// carrying different prefix lengths: the block the start belongs to is not the range
+	for bits := 1; bits <= 31; bits++ {
+		for _, base := range []uint32{0x0A000000, 0xC0A80100, 0xAC100000, 0x80000000, 0xFFFFFF00} {
+			network := base & maskOf(bits)
+			size := ^maskOf(bits)
+			for _, k := range []uint32{0, 1, size / 2, size - 1} {
+				if k > size {
+					continue
+				}
+				hi := network + k
+				for _, x := range []uint32{hi, hi + 1, network + size, network + size/2 + 1, network - 1} {
+					want := addr4(x).Compare(addr4(network)) >= 0 && addr4(x).Compare(addr4(hi)) <= 0
+					for _, eb := range []int{32, bits, 0, 32 - bitsLen(k)} {
+						if eb < 0 || eb > 32 {
+							continue
+						}
+						var g1, g2 bool
+						cs := map[string]any{"ip": dotted(x), "start": fmt.Sprintf("%s/%d", dotted(network), bits), "end": fmt.Sprintf("%s/%d", dotted(hi), eb)}
+						p, pv, st := mon.Guard(func() {
+							rg := &ip.IPv4Range{Start: lib4(network, bits), End: lib4(hi, eb)}
+							g1 = rg.Contains(lib4(x, 32))
+							g2 = lib4(x, bits).IsInRange(lib4(network, bits), lib4(hi, eb))
+						})
+						r.Eval(2)
+						if p {
+							r.Violation("ip.IPv4.IsInRange:panic:"+mon.PanicClass(pv), fmt.Sprintf("panic %v at %s", pv, mon.TopLibFrame(st)), cs)
+						} else if g1 != want || g2 != want {
+							r.Violation("ip.IPv4Range.Contains:value:end-points-with-prefix-lengths", fmt.Sprintf("[%s/%d, %s/%d]: Contains(%s)=%v IsInRange=%v want %v", dotted(network), bits, dotted(hi), eb, dotted(x), g1, g2, want), cs)
+						}
+					}
+				}
 			}
 		}
 	}
